@@ -12,7 +12,8 @@
    - refuted otherwise, with explicit schedules: a redisplay that starts while a command
      runs can lose a key, or reorder two keys; and an asker that went to sleep on the
      channel of one WaitAvailableKeys call is never woken once the main loop has left
-     that call (proved: stuck for ever, under every continuation). *)
+     that call (proved: stuck for ever, under every continuation); a report read before
+     the asker receives is dropped (non-blocking send), even while the main loop waits. *)
 From Model Require Import Base Proto.
 From Proofs Require Import ProtoP.
 Open Scope Z_scope.
@@ -45,6 +46,15 @@ Proof. vm_compute. repeat split; reflexivity. Qed.
 Theorem C20_watcher_stuck_refuted :
   let s := prun [LMainEnter; LAskStart 0; LAskBranch 0; LType 97; LMainRead; LAnswer; LMainEnter; LMainRead] (p_init 1) in
   stale s 0 1 /\ p_buf s = [97] /\ p_stdin s = [] /\ p_pending s = 0.
+Proof. vm_compute. repeat split; reflexivity. Qed.
+
+(* even while the main loop waits: the terminal's answer can be read - and dropped, nobody is
+   receiving yet - between the watcher's query and its receive; the watcher then waits for a
+   report that will never come (no query is outstanding any more) *)
+Theorem C20_report_dropped_before_receive_refuted :
+  let s := prun [LMainEnter; LAskStart 0; LAnswer; LMainRead; LAskBranch 0] (p_init 1) in
+  p_askers s = [ARecv 1] /\ p_chan s = 1 /\ p_pending s = 0 /\ p_stdin s = [] /\
+  prun_waiting [LMainEnter; LAskStart 0; LAnswer; LMainRead; LAskBranch 0] (p_init 1) = Some s.
 Proof. vm_compute. repeat split; reflexivity. Qed.
 
 (* non-vacuity of the guarded run: a resize and a Printf during one wait, the user types, both reports arrive *)
